@@ -365,7 +365,7 @@ def gen_run(seed: int, tier: str, sub: str) -> dict:
         else:
             ctxs.sort(key=RESOLUTION.index, reverse=(order == 2))
         cfg['ladder'] = ctxs
-        for name in m['BARE']:
+        for name in m['LADDER']:
             args = catalogue('main', name, m['SIG'][name])[rot % 2]
             for cname in ctxs:
                 call_pool.append(('main', name, args, cname))
@@ -415,15 +415,16 @@ def gen_run(seed: int, tier: str, sub: str) -> dict:
             threads.append(ops)
         return {'seed': seed, 'cfg': cfg, 'threads': threads, 'schedule': None, 'sched_seed': r.randrange(1 << 62)}
     elif shape == 'boundary':
-        # boundary sweep: three of the functions that take or return containers, every argument tuple of
-        # their catalogues (all representations, aliased sub-lists), the callers overwriting what they get
+        # boundary sweep: four of the functions that take or return containers, every other argument tuple of
+        # their catalogues (the other half the next time round) (all representations, aliased sub-lists), the callers overwriting what they get
         # back -- what crosses the Python boundary in either direction, systematically rather than sampled
         cfg['nthreads'] = nthreads = r.choice([1, 1, 2])
         cfg['mean_quantum'] = r.choice([150, 600, 2500])
         cfg['starve'] = 0.0
         cfg['opcode'] = False
         cfg['scribble'] = True
-        names = rotate(m['BOUNDARY'], rot, 3)
+        off = (13 if sub == 'faults' else 0) + 4 * (rot // 2)
+        names = [m['BOUNDARY'][(off + q) % len(m['BOUNDARY'])] for q in range(4)]
         threads = []
         for t in range(nthreads):
             ops = []
@@ -432,9 +433,10 @@ def gen_run(seed: int, tier: str, sub: str) -> dict:
                 # fresh-process references are shared: forks are the scarce resource here)
                 cname = CTX_NAMES[sum(map(ord, name)) % len(CTX_NAMES)]
                 cat = catalogue('main', name, m['SIG'][name])
-                for e in range(CATALOGUE):
+                # every other argument tuple of the catalogue, the other half in the next round
+                for e in range(rot % 2, CATALOGUE, 2):
                     ops.append({'op': 'call', 'fn': ['main', name], 'key': {'root': ['main', name], 'chain': []},
-                                'args': cat[(e + t) % CATALOGUE], 'ctx': cname, 'rt': 'default' if e % 4 else 'own', 'cancel': None})
+                                'args': cat[(e + 2 * t) % CATALOGUE], 'ctx': cname, 'rt': 'default' if e % 4 else 'own', 'cancel': None})
             threads.append(ops)
         return {'seed': seed, 'cfg': cfg, 'threads': threads, 'schedule': None, 'sched_seed': r.randrange(1 << 62)}
     elif shape == 'failure':
